@@ -36,6 +36,12 @@ structure Work where
   flt : Fault
   reuse : Bool := false
   abandon : Bool := false
+  /-- fourth wave: the last fault of the wire list is `trunc:<n>:<bytes>` - a completed run file is
+      cut short on disk before `Finalise` reads it (not an element of `flt`, see `Drive/C13.lean`) -/
+  trunc : Bool := false
+  /-- fourth wave: the identity of each injected error (g generic, u io.ErrUnexpectedEOF, w wrapped);
+      every kind is a failure of the operation, the model does not look at it -/
+  kinds : List String := []
 
 def parsePt (s : String) : Option Pt :=
   if s == "tempfile" then some .tempfile else if s == "encode" then some .encode
@@ -49,7 +55,22 @@ def parseFault1 (s : String) : Option (Pt × Nat) :=
     match parsePt p, parseNat n with
     | some p, some n => some (p, n)
     | _, _ => none
+  | [p, n, k] =>
+    -- `<point>:<n>:<kind>`: the kind is the identity of the injected error value
+    match parsePt p, parseNat n with
+    | some p, some n => if k == "g" || k == "u" || k == "w" then some (p, n) else none
+    | _, _ => none
   | _ => none
+
+/-- the fault field with the fourth-wave extensions: the model's fault list, whether a last
+    `trunc:<n>:<bytes>` follows it, and the error kinds -/
+def parseFaultW (s : String) : Option (Fault × Bool × List String) :=
+  if s == "-" then some ([], false, []) else
+  let toks := s.splitOn "+"
+  let tr := toks.getLast?.any (fun t => t.startsWith "trunc:")
+  let body := if tr then toks.dropLast else toks
+  let kinds := body.filterMap (fun t => match t.splitOn ":" with | [_, _, k] => some k | _ => none)
+  (body.mapM parseFault1).map (fun f => (f, tr, kinds))
 
 def parseFault (s : String) : Option Fault :=
   if s == "-" then some [] else (s.splitOn "+").mapM parseFault1
@@ -66,9 +87,9 @@ def parseOps (s : String) : Option (List Op × Bool) :=
 
 def parseWork8 (conc c ac acl ty ops sched flt opts : String) : Option Work :=
   match parseBool conc, parseNat c, parseBool ac, parseBool acl,
-        parseOps ops, parseList parseNat sched, parseFault flt with
-  | some conc, some c, some ac, some acl, some (ops, abandon), some sched, some flt =>
-    if opts == "-" || opts == "r" then some ⟨conc, c, ac, acl, ty, ops, sched, flt, opts == "r", abandon⟩ else none
+        parseOps ops, parseList parseNat sched, parseFaultW flt with
+  | some conc, some c, some ac, some acl, some (ops, abandon), some sched, some (flt, tr, kinds) =>
+    if opts == "-" || opts == "r" then some ⟨conc, c, ac, acl, ty, ops, sched, flt, opts == "r", abandon, tr, kinds⟩ else none
   | _, _, _, _, _, _, _ => none
 
 def parseWork : List String → Option Work
@@ -126,6 +147,58 @@ def runWork (w : Work) : Result :=
     let (s1, fl) := forced w.sys.init w.sched
     let s2 := finish w.sys actors fuel s1
     ⟨if fl.isEmpty then "-" else String.ofList fl, s2, s2.outs.reverse, finished s2, 0⟩
+
+/-! ### the listing of the temporary directory after every completed call (fourth wave)
+
+The harness lists the directory when a call has returned (same atomic block of the caller); the
+model's counterpart is `onDisk` / `dirExists` in the state in which the caller has just recorded
+an output.  `forcedL` / `finishL` are `forced` / `finish` with that bookkeeping. -/
+
+def lsOf (s : CState) : Int := if s.dirExists then s.onDisk else -1
+
+def noteLs (s s' : CState) (acc : List Int) : List Int :=
+  if s.outs.length < s'.outs.length then lsOf s' :: acc else acc
+
+def forcedL (s : CState) (acc : List Int) : List Nat → CState × List Int
+  | [] => (s, acc)
+  | i :: is =>
+    if !alive s i then forcedL s acc is else
+    match MorassConc.step s i with
+    | some s' => forcedL s' (noteLs s s' acc) is
+    | none => forcedL s acc is
+
+def finishL : Nat → CState → List Int → List Int
+  | 0, _, acc => acc
+  | fuel + 1, s, acc =>
+    match (actors s).findSome? (fun i => MorassConc.step s i) with
+    | some s' => finishL fuel s' (noteLs s s' acc)
+    | none => acc
+
+/-- the model's listing after each completed call, in call order (not for `u` programs) -/
+def lsTrace (w : Work) : List Int :=
+  let fuel := 20 * (w.ops.length + 4) * (w.chunk + 8)
+  let (s1, acc) := forcedL w.sys.init [] w.sched
+  (finishL fuel s1 acc).reverse
+
+/-- the calls after which the listing is compared and stated about: a `Pull` that returned io.EOF
+    (a drain) and a call that returned nil with `Len` = `Pos` = 0 (every successful `Clear`; also a
+    Push-less `Finalise`) - no `write()` activation is alive then in the generated cases -/
+def lsPoint (o : Out) : Bool :=
+  o.res == .eof || (o.res == .ok && o.len == 0 && o.pos == 0 && o.val.isNone)
+
+def lsRender (outs : List Out) (ls : List Int) : String :=
+  ",".intercalate ((outs.zip ls).filterMap (fun p => if lsPoint p.1 then some (toString p.2) else none))
+
+/-- the `tr:<ls>.<fired>,…` token of the C13 observation -/
+def parseTrace (tok : String) : Option (List (Int × Nat)) :=
+  if !tok.startsWith "tr:" then none else
+  ((tok.drop 3).toString.splitOn ",").mapM (fun e =>
+    match e.splitOn "." with
+    | [a, b] =>
+      match parseInt a, parseNat b with
+      | some a, some b => some (a, b)
+      | _, _ => none
+    | _ => none)
 
 def showOutK (o : Out) : String :=
   match o.res with
